@@ -292,3 +292,93 @@ Proof.
   split; [exact HistWitness.two_calls_results|exact HistWitness.replayed_second_call_waits].
 Qed.
 Print Assumptions C06_history_example.
+
+Require Import Verif.Check.C06_check Verif.Proofs.JudgeSoundC06P.
+(* ---- the executable properties of Check/C06_check.v are the property (judge soundness) ---- *)
+(* A case of sinks C06_sched / C06_sweep is (i, o): the configuration and the script of items the harness delivered, and
+   the observable of the real call.  [item_events (i_items i)] is the script read as the event list of the theorems
+   above (the responses it delivered), [edv_c] / [vrs_c] are the oracles as scripted by the harness stubs.
+   [cfg_wf] = signer node indexes, signer addresses and RMNHome node ids pairwise distinct (the harness generates such
+   configurations: spec 'assumptions'). *)
+
+(* An implementation output that agrees with the model (judge code 1 absent) passes the executable property (judge code
+   2 absent), provided the call had returned when the script ended (kind 10 = still running; the harness extends the
+   script until the call has returned or it has cancelled the context). *)
+Theorem C06_judge_c06_model_passes : forall i o,
+  NoDup (map sg_node (c_signers (i_cfg i))) /\ NoDup (map sg_addr (c_signers (i_cfg i))) /\
+  NoDup (map hn_id (c_nodes (i_cfg i))) ->
+  c06_oeqb (c06_model i) o = true ->
+  (forall x, o = [x] -> o_kind x <> 10%N) ->
+  c06_ok i o = true.
+Proof. exact c06_model_passes. Qed.
+Print Assumptions C06_judge_c06_model_passes.
+
+(* An output that passes the executable property satisfies, for the script of the case: C06_total_no_panic /
+   C06_total_terminates (returned, no panic); C06_one_observation_per_node and C06_obs_threshold on the attributed
+   observations handed to the signers (no node twice, every one from a configured observer of its chain, every lane a
+   root with F_home+1 distinct voters that carry it there AND have the vote evidence of C06_obs_threshold in the
+   script); and, if it reports success, the conclusion of C06_sig_threshold word for word — for the returned lanes
+   [rep] and signatures.  (The scripted RMNCrypto stub does not look at the report; that every VerifyReportSignatures
+   call saw exactly the report handed back is the harness flag o_repok.) *)
+Theorem C06_judge_c06_sound : forall i o,
+  c06_ok i o = true ->
+  exists x, o = [x] /\
+    o_kind x <> 9%N /\ o_kind x <> 10%N /\
+    (o_attr x = [] \/
+     (NoDup (map fst (o_attr x)) /\
+      (forall n l ch r, In (n, l) (o_attr x) -> In (ch, r) l -> In n (rmn_nodes_of (i_cfg i) ch)) /\
+      exists us, prepare (i_cfg i) = inl (Ok us) /\
+        forall u, In u us -> exists r voters,
+          NoDup voters /\ (u_F u + 1 <= zlen voters)%Z /\
+          forall n, In n voters ->
+            (exists l, In (n, l) (o_attr x) /\ In (u_chain u, r) l) /\
+            vote_evidence edv_c (i_cfg i) (item_events (i_items i)) n (u_req u) r)) /\
+    (o_kind x = 0%N ->
+     exists us rep, prepare (i_cfg i) = inl (Ok us) /\
+       o_lanes x = map (fun p => (lr_chain (fst p), snd p)) rep /\
+       ((Permutation (map fst rep) (map u_req us) /\
+         StronglySorted (fun a b => (lr_chain (fst a) <= lr_chain (fst b))%N) rep /\
+         forall q r, In (q, r) rep ->
+           exists u, In u us /\ q = u_req u /\ r <> 0%N /\
+             exists voters, NoDup voters /\ (u_F u + 1 <= zlen voters)%Z /\
+               forall n, In n voters -> vote_evidence edv_c (i_cfg i) (item_events (i_items i)) n q r) /\
+        exists entries : list (node * N * N),
+          o_sigs x = map snd entries /\
+          NoDup (map snode entries) /\
+          (c_remoteF (i_cfg i) + 1 <= zlen entries)%Z /\
+          StronglySorted (fun a b => (saddr a <= saddr b)%N) entries /\
+          forall e, In e entries -> sig_evidence vrs_c (i_cfg i) (item_events (i_items i)) rep e) /\
+       o_repok x = true).
+Proof. exact c06_sound. Qed.
+Print Assumptions C06_judge_c06_sound.
+
+(* The hypotheses are satisfiable: a successful two-observer / two-signer output passes and is the model's; dropping a
+   signature, handing back another root or naming a node twice among the attributed observations does not pass. *)
+Theorem C06_judge_c06_example :
+  c06_ok (Ex.inp 105%N) [Ex.good_out] = true /\ c06_oeqb (c06_model (Ex.inp 105%N)) [Ex.good_out] = true /\
+  c06_ok (Ex.inp 105%N) [mkOut 0 [(5, 105)]%N [1101]%N Ex.log4 (o_attr Ex.good_out) true] = false /\
+  c06_ok (Ex.inp 105%N) [mkOut 0 [(5, 106)]%N [1101; 1201]%N Ex.log4 (o_attr Ex.good_out) true] = false /\
+  c06_ok (Ex.inp 105%N) [mkOut 4 [] [] Ex.log4 [(1, [(5, 105)]); (1, [(5, 105)])]%N true] = false.
+Proof. exact Ex.c06_ok_example. Qed.
+Print Assumptions C06_judge_c06_example.
+
+(* Sinks C06_hist*: a history passes iff every call passes the single-call property against ITS OWN configuration and
+   ITS OWN script — the reading of C06_history_sig_threshold / C06_history_obs_threshold on arbitrary outputs
+   ([c06_P (snd c) x] is the conclusion of C06_judge_c06_sound for input [snd c] and output [x]). *)
+Theorem C06_judge_hist_model_passes : forall h o,
+  Forall (fun c => cfg_wf (i_cfg (snd c))) h ->
+  hist_oeqb (hist_model h) o = true ->
+  Forall (fun y => forall x, y = [x] -> o_kind x <> 10%N) o ->
+  hist_ok h o = true.
+Proof. exact hist_model_passes. Qed.
+Print Assumptions C06_judge_hist_model_passes.
+
+Theorem C06_judge_hist_sound : forall h o,
+  hist_ok h o = true -> Forall2 (fun c y => exists x, y = [x] /\ c06_P (snd c) x) h o.
+Proof. exact hist_sound. Qed.
+Print Assumptions C06_judge_hist_sound.
+
+Theorem C06_judge_hist_example :
+  hist_ok [(0%N, Ex.inp 105%N); (4%N, Ex.inp 105%N)] [[Ex.good_out]; [mkOut 4 [] [] [] [] true]] = true.
+Proof. exact Ex.hist_ok_example. Qed.
+Print Assumptions C06_judge_hist_example.
